@@ -154,3 +154,12 @@ Fixpoint tris_from (fuel : nat) (t : N) (fn : N -> vec) (corner : N -> vec) : li
   | S f => {| tn := fn t; ta := corner (3 * t); tb := corner (3 * t + 1); tc := corner (3 * t + 2); tattr := 0 |}
            :: tris_from f (t + 1) fn corner
   end.
+
+(* a, a+1, ..., a+k-1 *)
+Fixpoint iotaN (k : nat) (a : N) : list N := match k with O => [] | S k' => a :: iotaN k' (a + 1) end.
+
+(* executable well-formedness of records (hypothesis of the round-trip theorems, evaluated by the check) *)
+Definition vec_okb (v : vec) : bool :=
+  let '(x, y, z) := v in (x <? 4294967296) && (y <? 4294967296) && (z <? 4294967296).
+Definition tri_okb (t : tri) : bool :=
+  vec_okb (tn t) && vec_okb (ta t) && vec_okb (tb t) && vec_okb (tc t) && (tattr t <? 65536).
